@@ -67,6 +67,12 @@ func (req *request) DecrRef() {
 func (req *request) Wait() error {
 	req.wg.Wait()
 	err := req.Err
+	if err != nil {
+		// A failed request leaves the entries with the caller, exactly like a
+		// request refused by sendToWriteCh: every caller releases them itself
+		// when the write reports an error.
+		req.Entries = nil
+	}
 	req.DecrRef() // DecrRef after writing to DB.
 	return err
 }
